@@ -27,11 +27,12 @@ type roundCfg struct {
 	txnOps           int // operations per transaction
 	maxTxns          int // transactions per round
 	depth            int
-	c05              bool  // evaluate the dead-node / prune oracles instead of the save oracles
-	skipEmptyRecords bool  // the caller records dead nodes only in rounds where something died
+	c05              bool     // evaluate the dead-node / prune oracles instead of the save oracles
+	skipEmptyRecords bool     // the caller records dead nodes only in rounds where something died
 	initial          []string // paths (value "i") inserted, merged and saved as a round of their own before the exploration starts
 	base             int64    // the first round's version is base+1 (round numbers are written as store keys: byte-order boundaries)
-	syncOps          bool  // a round may end with the authoritative state of the round being merged in (MergeDB)
+	syncOps          bool     // a round may end with the authoritative state of the round being merged in (MergeDB)
+	syncOlder        bool     // with syncOps: the authoritative state was computed one version earlier than the adopting trie's version (catching up)
 }
 
 type rEvent struct {
@@ -55,6 +56,10 @@ func (e rEvent) String() string {
 		return fmt.Sprintf("MergeDB(full state of: previous round + Insert(%q,%q))", e.P, e.V)
 	case 'z':
 		return fmt.Sprintf("MergeDB(full state of: previous round + Delete(%q))", e.P)
+	case 'Y':
+		return fmt.Sprintf("MergeDB(full state of: previous round + Insert(%q,%q), computed at the version before this trie's)", e.P, e.V)
+	case 'Z':
+		return fmt.Sprintf("MergeDB(full state of: previous round + Delete(%q), computed at the version before this trie's)", e.P)
 	}
 	return "?"
 }
@@ -70,7 +75,11 @@ func (c roundCfg) events() []rEvent {
 	evs = append(evs, rEvent{K: 'm'}, rEvent{K: 'x'}, rEvent{K: 'S'})
 	if c.syncOps {
 		for _, p := range c.paths {
-			evs = append(evs, rEvent{K: 'y', P: p, V: c.vals[len(c.vals)-1] + "!"}, rEvent{K: 'z', P: p})
+			if c.syncOlder {
+				evs = append(evs, rEvent{K: 'Y', P: p, V: c.vals[len(c.vals)-1] + "!"}, rEvent{K: 'Z', P: p})
+			} else {
+				evs = append(evs, rEvent{K: 'y', P: p, V: c.vals[len(c.vals)-1] + "!"}, rEvent{K: 'z', P: p})
+			}
 		}
 	}
 	return evs
@@ -165,14 +174,18 @@ func txnStep(B *util.MerklePatriciaTrie, T **util.MerklePatriciaTrie, e rEvent) 
 		return err
 	case 'x':
 		*T = nil
-	case 'y', 'z':
+	case 'y', 'z', 'Y', 'Z':
 		// the round's authoritative state, computed elsewhere from the previous round's state, arrives as a
 		// node store holding that whole state; the block trie (with whatever it computed locally) adopts it
 		_, _, _, start := B.GetChanges()
 		pn := B.GetNodeDB().(*util.LevelNodeDB).GetPrev()
-		A := util.NewMerklePatriciaTrie(util.NewLevelNodeDB(util.NewMemoryNodeDB(), pn, false), B.GetVersion(), start, statecache.NewEmpty())
+		aver := B.GetVersion()
+		if e.K == 'Y' || e.K == 'Z' {
+			aver-- // a state computed earlier, adopted by a trie whose version has moved on
+		}
+		A := util.NewMerklePatriciaTrie(util.NewLevelNodeDB(util.NewMemoryNodeDB(), pn, false), aver, start, statecache.NewEmpty())
 		var err error
-		if e.K == 'y' {
+		if e.K == 'y' || e.K == 'Y' {
 			_, err = A.Insert(util.Path(e.P), val(e.V))
 		} else if _, err = A.Delete(util.Path(e.P)); err == util.ErrValueNotPresent {
 			err = nil
@@ -240,7 +253,7 @@ func (w *rWorld) apply(e rEvent, judge bool) (fail string) {
 				return fmt.Sprintf("merge of the only open transaction was rejected: %v", err)
 			}
 			w.model = w.tmodel
-		case 'y', 'z':
+		case 'y', 'z', 'Y', 'Z':
 			if err != nil {
 				return fmt.Sprintf("%v returned %v", e, err)
 			}
@@ -248,7 +261,7 @@ func (w *rWorld) apply(e rEvent, judge bool) (fail string) {
 			if n := len(w.saved); n > 0 {
 				w.model = copyMap(w.saved[n-1].model)
 			}
-			if e.K == 'y' {
+			if e.K == 'y' || e.K == 'Y' {
 				w.model[e.P] = e.V
 			} else {
 				delete(w.model, e.P)
@@ -587,7 +600,7 @@ func runRounds(rep *rt.Report, c roundCfg, deadline time.Time, agg *crashStats) 
 			open, tops, txns, rounds, synced := false, 0, 0, 0, false
 			for _, x := range h {
 				switch evs[x].K {
-				case 'y', 'z':
+				case 'y', 'z', 'Y', 'Z':
 					synced = true
 				case 'I', 'D':
 					if !open {
@@ -680,6 +693,7 @@ func C04(tier rt.Tier) int {
 			{name: "sync-merge-2rounds", paths: pfPaths[:3], vals: []string{"x"}, rounds: 2, txnOps: 2, maxTxns: 1, depth: 8, syncOps: true},
 			{name: "rounds-255..257", paths: pfPaths[:2], vals: []string{"x", "y"}, rounds: 3, txnOps: 1, maxTxns: 1, depth: 9, base: 254},
 			{name: "prefix-key-over-extension", initial: prefixOverExt, paths: prefixOverExt, vals: []string{"x"}, rounds: 2, txnOps: 2, maxTxns: 1, depth: 7},
+			{name: "sync-merge-older-origin", paths: pfPaths[:3], vals: []string{"x"}, rounds: 2, txnOps: 2, maxTxns: 1, depth: 7, syncOps: true, syncOlder: true, base: 4},
 		}
 	} else {
 		per = 8 * time.Minute
